@@ -48,6 +48,13 @@ interface odd {
   variant v { a(result<tuple<u8, u8>, list<r>>), b(option<option<string>>) }
   k: func(x: v) -> tuple<list<v>, option<r>>;
 }
+interface c2 { resource r; mk: func() -> r; }
+interface z2 { use c2.{r}; f: func(x: r); }
+interface ra { resource r; }
+interface rb { resource r; }
+world expuse { export c2; export z2; }
+world sameres { use ra.{r}; use rb.{r as r2}; import f: func(x: r, y: r2); export go: func(); }
+world sameres-iface { import ra; import rb; import both: interface { use ra.{r}; use rb.{r as r2}; f: func(x: r, y: r2); } export go: func(); }
 world producer { export shapes; }
 world multi { import ia; import ib; import shapes; import odd; export go: func() -> u8; }
 world consumer { import shapes; export render; }
@@ -156,9 +163,29 @@ fn main() {
             }
         } }
     }
+    // ---- single instantiations of worlds with unusual `use` shapes (every import implicit), all four option combinations
+    let mut single_findings: Vec<String> = vec![];
+    for (world, key) in [("expuse", "exported-interface-used-by-another-export"), ("sameres", "world-level-use-of-same-named-resources"), ("sameres-iface", "")] {
+        let bytes = component(world);
+        let mut g = CompositionGraph::new();
+        let p = Package::from_bytes(&format!("t:{world}"), None, bytes, g.types_mut()).unwrap();
+        let pid = g.register_package(p).unwrap();
+        g.instantiate(pid);
+        let mut bad: Vec<String> = vec![];
+        for define in [true, false] { for val in [true, false] {
+            let r = match g.encode(EncodeOptions { define_components: define, validate: val, processor: None }) { Ok(b) => validate(&b), Err(e) => Err(format!("{e:#}")) };
+            outputs += 1;
+            if let Err(e) = r { bad.push(format!("dependencies {} validate={val}: {}", if define { "embedded" } else { "imported" }, e.lines().next().unwrap_or(""))); } else { distinct.insert((200 + outputs as u32, define)); }
+        } }
+        if !bad.is_empty() {
+            if key.is_empty() { println!("C01-BOUNDED VIOLATION: a single instantiation of world `{world}` (every import implicit) does not give a valid component: {:?}", bad); std::process::exit(1); }
+            single_findings.push(format!("FINDING {key} a single instantiation of world `{world}` (every import implicit) does not give a valid component: {:?}", bad));
+        }
+    }
+    for f in &single_findings { println!("{f}"); }
     if let Some(f) = &first_late { println!("FINDING late-validation-resource-identity {late_resource} encodings, e.g. {f}"); }
     if let Some(f) = &first_export { println!("FINDING late-validation-export-order {late_export} encodings, e.g. {f}"); }
     if samples.is_empty() { samples.push("(none)".to_string()); }
-    println!("C01-VALID {} {{\"bounded\": true, \"evaluations\": {outputs}, \"distinct_nontrivial\": {}, \"rejected_with_a_documented_error\": {rejected}, \"late_validation_failures_of_the_recorded_classes\": [{late_resource}, {late_export}], \"samples\": {:?}}}", if late_resource + late_export > 0 { "findings" } else { "ok" }, distinct.len(), samples);
-    std::process::exit(if late_resource + late_export > 0 { 3 } else { 0 });
+    println!("C01-VALID {} {{\"bounded\": true, \"evaluations\": {outputs}, \"distinct_nontrivial\": {}, \"rejected_with_a_documented_error\": {rejected}, \"late_validation_failures_of_the_recorded_classes\": [{late_resource}, {late_export}], \"samples\": {:?}}}", if late_resource + late_export > 0 || !single_findings.is_empty() { "findings" } else { "ok" }, distinct.len(), samples);
+    std::process::exit(if late_resource + late_export > 0 || !single_findings.is_empty() { 3 } else { 0 });
 }
